@@ -37,8 +37,12 @@ XfAdd(v, a, path, size, cks) ==
    Paths and bases are sequences of components.                                 *)
 Strip(p, b) == IF b # <<>> /\ Len(b) < Len(p) /\ IsPrefix(b, p) THEN SubSeq(p, Len(b) + 1, Len(p)) ELSE p
 
+\* dump_for_tree(out, variant, arch, base) is a query: it lists the tree's files and changes nothing; an unknown tree is a KeyError
+XfTreeDump(v, a) == /\ out' = IF <<v, a>> \in DOMAIN files THEN "ok" ELSE "KeyError"
+                    /\ UNCHANGED <<mods, files>>
+
 -----------------------------------------------------------------------------
-RefusedIsNoop == [][out' = "refused" => UNCHANGED <<mods, files>>]_vars
+RefusedIsNoop == [][out' \in {"refused", "KeyError"} => UNCHANGED <<mods, files>>]_vars
 RpmListGrows  == [][\A k \in DOMAIN mods : k \in DOMAIN mods' /\ IsPrefix(mods[k].rpms, mods'[k].rpms)]_vars
 FilesAppendOnly == [][\A k \in DOMAIN files : k \in DOMAIN files' /\ IsPrefix(files[k], files'[k])]_vars
 OthersUntouched == [][out' = "ok" => /\ Cardinality({k \in DOMAIN mods : mods'[k] # mods[k]}) <= 1
